@@ -306,6 +306,9 @@ func (cg *caseGen) expr(cx ectx) (*pvcase.Expr, bool) {
 		if f.memoShapes {
 			ws = append(ws, wk{"mshape", 6 * m})
 		}
+		if f.act && f.lab {
+			ws = append(ws, wk{"scshape", 3 * m})
+		}
 	}
 	sub := cx
 	sub.depth--
@@ -377,6 +380,8 @@ func (cg *caseGen) expr(cx ectx) (*pvcase.Expr, bool) {
 		return cg.stateShape(sub)
 	case "mshape":
 		return cg.memoShape(sub)
+	case "scshape":
+		return cg.scopeShape(sub)
 	}
 	panic("unreachable")
 }
@@ -638,4 +643,49 @@ func (cg *caseGen) memoShape(cx ectx) (*pvcase.Expr, bool) {
 	default: // (X s1)? X s2
 		return seqOf(un(pvcase.KOpt, seqOf(xc(), s1)), xc(), s2), false
 	}
+}
+
+// scopeShape generates `x:e1 W(... x:e2 ...) reader`: the label of the enclosing sequence is bound
+// AGAIN inside a construct that opens a scope of its own (?, *, +, &, !, a choice alternative, a
+// labelled expression, a recovery expression), and a code block of the enclosing sequence reads it
+// afterwards: it must see e1's value (label scopes end with the construct that opened them).
+func (cg *caseGen) scopeShape(cx ectx) (*pvcase.Expr, bool) {
+	l := pickStr(cg.r, valueLabels)
+	e1, n1 := cg.expr(cx)
+	e2 := cg.nonNullLeaf()
+	inner := seqOf(cg.nonNullLeaf(), &pvcase.Expr{Kind: pvcase.KLab, Label: l, Kids: []*pvcase.Expr{e2}})
+	if cg.chance(0.3) {
+		inner = &pvcase.Expr{Kind: pvcase.KLab, Label: l, Kids: []*pvcase.Expr{e2}}
+	}
+	if cg.f.pred && cg.chance(0.3) {
+		inner = seqOf(inner, &pvcase.Expr{Kind: pvcase.KAndc}) // a reader inside: sees e2's value
+	}
+	var w *pvcase.Expr
+	switch cg.r.IntN(8) {
+	case 0, 1:
+		w = un(pvcase.KOpt, inner)
+	case 2:
+		w = un(pvcase.KStar, inner)
+	case 3:
+		w = un(pvcase.KOpt, un(pvcase.KPlus, inner))
+	case 4:
+		w = un(pvcase.KAnd, inner)
+	case 5:
+		w = un(pvcase.KNot, un(pvcase.KNot, inner))
+	case 6:
+		ch := cg.newChoice()
+		ch.Kids = []*pvcase.Expr{inner, un(pvcase.KOpt, cg.nonNullLeaf())}
+		w = ch
+	default:
+		w = un(pvcase.KOpt, &pvcase.Expr{Kind: pvcase.KLab, Label: pickStr(cg.r, valueLabels), Kids: []*pvcase.Expr{inner}})
+	}
+	seq := seqOf(&pvcase.Expr{Kind: pvcase.KLab, Label: l, Kids: []*pvcase.Expr{e1}}, w)
+	if cg.f.pred && cg.chance(0.4) {
+		kind := pvcase.KAndc
+		if cg.chance(0.3) {
+			kind = pvcase.KNotc
+		}
+		seq.Kids = append(seq.Kids, &pvcase.Expr{Kind: kind})
+	}
+	return un(pvcase.KAct, seq), n1
 }
